@@ -43,7 +43,10 @@ CheckFault(r) ==
        IF hit /\ r.res # "err" THEN Flag("MISMATCH", r.case, <<"a failing read/write did not end the run with an error: result", r.res>>)
        ELSE IF ~hit /\ r.res # "ok" THEN Flag("MISMATCH", r.case, "the run failed although no fault was injected before its end")
        ELSE IF Streaming(r) /\ r.policy # "stdout" /\ ~IsPrefixB(r.out, r.base) THEN Flag("MISMATCH", r.case, "stdout is not a prefix of the fault-free output")
+       \* with the diagnostics in the output too (--on-error=stdout): what was written before a failing read is what the fault-free run had written by then
+       ELSE IF Streaming(r) /\ r.policy = "stdout" /\ r.rfault.src # 0 /\ ~IsPrefixB(r.out, r.base) THEN Flag("MISMATCH", r.case, "stdout (rows and diagnostics) is not a prefix of the fault-free output")
        ELSE IF r.rfault.src # 0 /\ r.policy = "stderr" /\ ErrLines(r.err) > ErrLines(r.berr) THEN Flag("MISMATCH", r.case, "the read failure was reported like a malformed value")
+       ELSE IF r.rfault.src # 0 /\ r.policy = "stdout" /\ ErrLines(r.out) > ErrLines(r.base) THEN Flag("MISMATCH", r.case, "the read failure was reported like a malformed value (on stdout)")
        ELSE IF r.wfault # -1 /\ hit /\ Streaming(r) /\ r.policy # "stdout" /\ r.out # SubSeq(r.base, 1, r.wfault) THEN Flag("DRIFT", r.case, "bytes before the write fault")
        ELSE IF r.exact /\ result # r.res THEN Flag("DRIFT", r.case, <<"machine result", result, "observed", r.res>>)
        ELSE IF r.mode = "plain" /\ r.exact /\ r.out # out THEN Flag("DRIFT", r.case, "machine stdout differs")
